@@ -329,7 +329,7 @@ def unit(root='/repo'):
     impls = fsmodel.gen_impl(root, 'BackFileSystem', 'u64', 'u64', notes) + '\n' + fsmodel.gen_impl(root, 'PseudoFs', 'u64', 'u64', notes)
 
     P = ['C07']
-    items = flagsmodel.items(root, ABI, 'FsOptions') + [
+    items = flagsmodel.items(root, ABI, 'FsOptions') + flagsmodel.items(root, ABI, 'SetattrValid') + [
         Copy(FSMOD, r'pub struct Context\b', prefix='#[derive(Clone, Copy)]', subst=[('libc::uid_t', 'u32'), ('libc::gid_t', 'u32'), ('libc::pid_t', 'i32')]),
         Copy(FSMOD, r'pub struct Entry\b', prefix='#[derive(Clone, Copy)]'),
         Copy(FSMOD, r'pub struct FileLock\b', prefix='#[derive(Clone, Copy)]'),
